@@ -1,4 +1,5 @@
 import GdslModel.Lemmas.Un
+import GdslModel.Lemmas.Extra
 /-!
 # C02 — undirected adjacency is symmetric
 -/
@@ -40,5 +41,23 @@ theorem Un.edge_degree (s : Store K E) (u v : K) (e : E) (huv : u ≠ v) :
 
 example : Mirror (Un.run [Op.connect 0 0 7, .connect 0 1 1, .connect 1 0 2, .disconnect 1 0, .isolate 0] : Store Nat Nat) :=
   Un.run_mirror _
+
+/-- handshake ("degrees count every incident edge once per endpoint"): in a symmetric store, over a
+    duplicate-free set of nodes closed under adjacency, the degrees add up to exactly twice the number of
+    edges - every edge, a self-loop included, is counted twice in all and none is counted more often -/
+theorem Un.handshake (s : Store K E) (h : Mirror s) (ks : List K) (hnd : ks.Nodup)
+    (hc : ∀ k ∈ ks, ∀ p ∈ unAdj s k, p.1 ∈ ks) :
+    (ks.map fun k => (unAdj s k).length).sum = 2 * (ks.map fun k => (s.get k).out.length).sum :=
+  Un.handshake' s h ks hnd hc
+
+/-- the same for every reachable store: after any history the degree sum over a closed node set is even -/
+theorem Un.handshake_run (ops : List (Op K E)) (ks : List K) (hnd : ks.Nodup)
+    (hc : ∀ k ∈ ks, ∀ p ∈ unAdj (Un.run ops) k, p.1 ∈ ks) :
+    (ks.map fun k => (unAdj (Un.run ops) k).length).sum % 2 = 0 := by
+  rw [Un.handshake' _ (Un.run_mirror ops) ks hnd hc]; omega
+
+/-- non-vacuity: a self-loop and two parallel edges over the closed set {0, 1}: degrees 4 + 2 = 2 * 3 -/
+example : ([0, 1].map fun k => (unAdj (Un.run [Op.connect 0 0 7, .connect 0 1 1, .connect 1 0 2] : Store Nat Nat) k).length).sum = 6 := by
+  decide
 
 end G
